@@ -28,7 +28,8 @@ Definition dec_op (a : list Z) : op :=
   else if k =? 2 then OSetPod (dec_pod a)
   else if k =? 3 then OSetBP (at_ a 1)
   else if k =? 4 then OTick (at_ a 1)
-  else ORestart.
+  else if k =? 5 then ORestart
+  else OStale (at_ a 1).
 
 Fixpoint dec_ops (n : nat) (l : list Z) : list op :=
   match n with
